@@ -1824,10 +1824,16 @@ func ruleNAccFlag(c *engine.Context) *report.Rule {
 		}
 		return nil, nil, false
 	}
-	// the pass: a hand-written PARSE function with a walk loop
-	var pass *ssa.Function
-	var walk *cfgutil.Loop
-	var W *ssa.Phi
+	// the passes: loops of hand-written PARSE functions that walk a node chain through its next
+	// links while setting the flag on the walk variable. A pass may be a function of its own
+	// (node and mode are parameters) or written out where a chain is attached (mode is a constant).
+	type passT struct {
+		fn   *ssa.Function
+		walk *cfgutil.Loop
+		W    *ssa.Phi
+		mode ssa.Value // the value the walk variable's flag is set to
+	}
+	var passes []*passT
 	for _, fn := range p.Funcs {
 		if fn.Blocks == nil || !p.ParsePhase[fn] || p.FuncIsGenerated(fn) {
 			continue
@@ -1849,111 +1855,109 @@ func ruleNAccFlag(c *engine.Context) *report.Rule {
 				if !advances {
 					continue
 				}
-				hasSetter := false
-				for _, b := range fn.Blocks {
+				for b := range l.Blocks {
 					for _, x := range b.Instrs {
-						if _, _, ok := isSetterCall(x); ok {
-							hasSetter = true
+						if recv, arg, ok := isSetterCall(x); ok && recv == ssa.Value(ph) {
+							passes = append(passes, &passT{fn: fn, walk: l, W: ph, mode: arg})
 						}
 					}
-				}
-				if hasSetter {
-					pass, walk, W = fn, l, ph
 				}
 			}
 		}
 	}
-	if pass == nil {
+	sort.Slice(passes, func(i, j int) bool { return passes[i].W.Pos() < passes[j].W.Pos() })
+	if len(passes) == 0 {
 		r.Oblige(false)
 		r.Violation("flag-clearing pass", "-", "no function walks a node chain through its next links while setting the accessor flag")
 		return r
 	}
-	var modeParam *ssa.Parameter
-	for _, prm := range pass.Params {
-		if b, ok := prm.Type().Underlying().(*types.Basic); ok && b.Kind() == types.Bool {
-			modeParam = prm
-		}
-	}
-	everyIteration := func(ins ssa.Instruction) bool {
-		if !walk.Blocks[ins.Block()] {
-			return false
-		}
-		for _, latch := range walk.Latch {
-			if !(ins.Block() == latch || ins.Block().Dominates(latch)) {
+	edges := findRetrieveEdges(c)
+	setters := nodeSetters(p)
+	for _, ps := range passes {
+		pass, walk, W := ps.fn, ps.walk, ps.W
+		everyIteration := func(ins ssa.Instruction) bool {
+			if !walk.Blocks[ins.Block()] {
 				return false
 			}
-		}
-		return true
-	}
-	// (1) the walk variable itself gets the flag on every iteration
-	r.Instances++
-	selfOK := false
-	for _, b := range pass.Blocks {
-		for _, x := range b.Instrs {
-			if recv, arg, ok := isSetterCall(x); ok && recv == ssa.Value(W) && arg == ssa.Value(modeParam) && everyIteration(x) {
-				selfOK = true
+			for _, latch := range walk.Latch {
+				if !(ins.Block() == latch || ins.Block().Dominates(latch)) {
+					return false
+				}
 			}
+			return true
 		}
-	}
-	r.Oblige(selfOK)
-	r.Sample("%s: flag set on the walk variable on every iteration: %v", load.FuncName(pass), selfOK)
-	if !selfOK {
-		r.Violation("flag-clearing pass "+load.FuncName(pass)+": chain nodes", p.RelPos(pass.Pos()),
-			"the pass does not set the flag on every node it walks over (only some position of the chain): an inner node that emits results keeps accessor mode")
-	}
-	// (2) same-sink retrieve edges other than next must be covered
-	edges := findRetrieveEdges(c)
-	for _, e := range edges {
-		if !e.sameSink {
-			continue
-		}
-		// next edge of the basic node: covered by the walk
-		if st, ok := e.T.Underlying().(*types.Struct); ok {
-			ft := st.Field(e.field).Type()
-			if pt, isPtr := ft.(*types.Pointer); isPtr && types.Identical(pt.Elem(), p.Roles.BasicNode) {
-				continue // promoted access to the embedded basic node (its next)
-			}
-		}
-		if types.Identical(e.T, p.Roles.BasicNode) {
-			continue
-		}
+		// (1) the walk variable itself gets the flag on every iteration
 		r.Instances++
-		covered := false
-		why := "no flag update reaches the nodes stored in this field (directly in the pass, or in a helper the pass hands the node to), or only under an extra condition"
-		// the type test of the walk variable to *T inside the loop, then the shared propagation check (N-WALK)
-		setters := nodeSetters(p)
+		selfOK := false
 		for _, b := range pass.Blocks {
-			if !walk.Blocks[b] {
+			for _, x := range b.Instrs {
+				if recv, arg, ok := isSetterCall(x); ok && recv == ssa.Value(W) && (arg == ps.mode || sameConst(arg, ps.mode)) && everyIteration(x) {
+					selfOK = true
+				}
+			}
+		}
+		r.Oblige(selfOK)
+		r.Sample("%s: flag set on the walk variable on every iteration: %v", load.FuncName(pass), selfOK)
+		if !selfOK {
+			r.Violation("flag-clearing pass "+load.FuncName(pass)+": chain nodes", p.RelPos(pass.Pos()),
+				"the pass does not set the flag on every node it walks over (only some position of the chain): an inner node that emits results keeps accessor mode")
+		}
+		// (2) same-sink retrieve edges other than next must be covered
+		for _, e := range edges {
+			if !e.sameSink {
 				continue
 			}
-			for _, x := range b.Instrs {
-				ta, isTA := x.(*ssa.TypeAssert)
-				if !isTA || !ta.CommaOk || ta.X != ssa.Value(W) {
+			// next edge of the basic node: covered by the walk
+			if st, ok := e.T.Underlying().(*types.Struct); ok {
+				ft := st.Field(e.field).Type()
+				if pt, isPtr := ft.(*types.Pointer); isPtr && types.Identical(pt.Elem(), p.Roles.BasicNode) {
+					continue // promoted access to the embedded basic node (its next)
+				}
+			}
+			if types.Identical(e.T, p.Roles.BasicNode) {
+				continue
+			}
+			r.Instances++
+			covered := false
+			why := "no flag update reaches the nodes stored in this field (directly in the pass, or in a helper the pass hands the node to), or only under an extra condition"
+			// the type test of the walk variable to *T inside the loop, then the shared propagation check (N-WALK)
+			for _, b := range pass.Blocks {
+				if !walk.Blocks[b] {
 					continue
 				}
-				if pt, isPtr := ta.AssertedType.(*types.Pointer); !isPtr || !types.Identical(pt.Elem(), e.T) {
-					continue
-				}
-				for _, ref := range *ta.Referrers() {
-					ex, isE := ref.(*ssa.Extract)
-					if !isE || ex.Index != 0 {
+				for _, x := range b.Instrs {
+					ta, isTA := x.(*ssa.TypeAssert)
+					if !isTA || !ta.CommaOk || ta.X != ssa.Value(W) {
 						continue
 					}
-					if edgesPropagated(p, pass, ex, setterName, setters, evalEdgeGuards(c, e.T), modeParam, W)[e.field] {
-						covered = true
+					if pt, isPtr := ta.AssertedType.(*types.Pointer); !isPtr || !types.Identical(pt.Elem(), e.T) {
+						continue
+					}
+					for _, ref := range *ta.Referrers() {
+						ex, isE := ref.(*ssa.Extract)
+						if !isE || ex.Index != 0 {
+							continue
+						}
+						if edgesPropagated(p, pass, ex, setterName, setters, evalEdgeGuards(c, e.T), ps.mode, W)[e.field] {
+							covered = true
+						}
 					}
 				}
 			}
-		}
-		r.Oblige(covered)
-		r.Sample("retrieve edge %s (same sink): covered by the flag-clearing pass: %v", fieldName(e.T, e.field), covered)
-		if !covered {
-			r.Violation("flag-clearing pass "+load.FuncName(pass)+": edge "+fieldName(e.T, e.field), p.RelPos(pass.Pos()),
-				"nodes reachable through %s emit into the same result list as their parent (see %s), but %s: in accessor mode they hand Accessor structs to functions / filter operands",
-				fieldName(e.T, e.field), load.FuncName(e.fn), why)
+			r.Oblige(covered)
+			r.Sample("retrieve edge %s (same sink): covered by the flag-clearing pass in %s: %v", fieldName(e.T, e.field), load.FuncName(pass), covered)
+			if !covered {
+				r.Violation("flag-clearing pass "+load.FuncName(pass)+": edge "+fieldName(e.T, e.field), p.RelPos(pass.Pos()),
+					"nodes reachable through %s emit into the same result list as their parent (see %s), but %s: in accessor mode they hand Accessor structs to functions / filter operands",
+					fieldName(e.T, e.field), load.FuncName(e.fn), why)
+			}
 		}
 	}
-	// (3) attach points: stores to private-sink edge fields are accompanied by the pass with mode=false
+	isFalse := func(v ssa.Value) bool {
+		cst, isC := v.(*ssa.Const)
+		return isC && cst.Value != nil && cst.Value.String() == "false"
+	}
+	// (3) attach points: stores to private-sink edge fields are accompanied by a pass with mode=false
 	for _, e := range edges {
 		if e.sameSink {
 			continue
@@ -1978,6 +1982,17 @@ func ruleNAccFlag(c *engine.Context) *report.Rule {
 					}
 					r.Instances++
 					okAttach := false
+					isAttached := func(v ssa.Value) bool {
+						if v == st.Val {
+							return true
+						}
+						if ld, isLd := v.(*ssa.UnOp); isLd {
+							if fa2, isFA := ld.X.(*ssa.FieldAddr); isFA && fa2.Field == e.field && fa2.X == fa.X {
+								return true
+							}
+						}
+						return false
+					}
 					// (ii) re-assignment from a helper applied to the field's own value
 					if call, isCall := st.Val.(*ssa.Call); isCall {
 						for _, a := range call.Call.Args {
@@ -1988,31 +2003,34 @@ func ruleNAccFlag(c *engine.Context) *report.Rule {
 							}
 						}
 					}
-					// (i) the pass is called in the same function on the stored value (or a load of the field) with mode=false
-					for _, bb := range fn.Blocks {
-						for _, x := range bb.Instrs {
-							call, isCall := x.(*ssa.Call)
-							if !isCall || call.Call.StaticCallee() != pass {
-								continue
-							}
-							var nodeArg, modeArg ssa.Value
-							for i, prm := range pass.Params {
-								if types.Identical(prm.Type(), p.Roles.NodeIface) {
-									nodeArg = call.Call.Args[i]
+					for _, ps := range passes {
+						// (i) a pass function is called in the same function on the stored value (or a load of the field) with mode=false
+						if mp, isParam := ps.mode.(*ssa.Parameter); isParam && mp.Parent() == ps.fn {
+							for _, bb := range fn.Blocks {
+								for _, x := range bb.Instrs {
+									call, isCall := x.(*ssa.Call)
+									if !isCall || call.Call.StaticCallee() != ps.fn {
+										continue
+									}
+									var nodeArg, modeArg ssa.Value
+									for i, prm := range ps.fn.Params {
+										if types.Identical(prm.Type(), p.Roles.NodeIface) {
+											nodeArg = call.Call.Args[i]
+										}
+										if prm == mp {
+											modeArg = call.Call.Args[i]
+										}
+									}
+									if isFalse(modeArg) && nodeArg != nil && isAttached(nodeArg) {
+										okAttach = true
+									}
 								}
-								if prm == modeParam {
-									modeArg = call.Call.Args[i]
-								}
 							}
-							cst, isC := modeArg.(*ssa.Const)
-							if !isC || cst.Value == nil || cst.Value.String() != "false" {
-								continue
-							}
-							if nodeArg == st.Val {
-								okAttach = true
-							}
-							if ld, isLd := nodeArg.(*ssa.UnOp); isLd {
-								if fa2, isFA := ld.X.(*ssa.FieldAddr); isFA && fa2.Field == e.field && fa2.X == fa.X {
+						}
+						// (iii) the pass is written out in this function: it starts at the attached value and clears the flag
+						if ps.fn == fn && isFalse(ps.mode) {
+							for i, e0 := range ps.W.Edges {
+								if !ps.walk.Blocks[ps.walk.Header.Preds[i]] && isAttached(e0) {
 									okAttach = true
 								}
 							}
